@@ -2010,6 +2010,13 @@ func (cs *State) addVote(vote *types.Vote, peerID p2p.ID) (added bool, err error
 			return
 		}
 
+		if cs.LastCommit == nil {
+			// At the initial height there is no previous commit to add to; a peer
+			// can still send a well-formed precommit for the height before it.
+			cs.Logger.Debug("precommit vote for the height before the initial height has been ignored", "vote", vote)
+			return
+		}
+
 		added, err = cs.LastCommit.AddVote(vote)
 		if !added {
 			return
